@@ -626,6 +626,33 @@ pub fn run(pc: &PropCtx) {
         [plain, word]
     }).map(|pat| Case { pat, lines: vec![] });
     pc.run_enum("literal_grammar", cases, check);
+    // Third grammar: flat concatenations of tokens (literal, class, repeated
+    // class, optional, small groups) — the shape "literal, skipped group,
+    // literal" that the extractor's cross/choose logic has to get right.
+    // (capturing groups matter: unlike non-capturing ones they are not
+    // flattened into the surrounding concatenation of the HIR)
+    const TOKENS: &[&str] = &["a", "b", "c", "[a-z]", "[a-z]+", "[ab]", "a?", "([a-z]+c)", "(a|bc)", "b*", "(?:[a-z]c)"];
+    let cat_len = pc.tier.pick(5, 6);
+    let mut cats: Vec<String> = vec![];
+    let mut frontier: Vec<String> = vec![String::new()];
+    for _ in 0..cat_len {
+        let mut next = vec![];
+        for p in &frontier {
+            for tk in TOKENS {
+                next.push(format!("{p}{tk}"));
+            }
+        }
+        cats.extend(next.iter().cloned());
+        frontier = next;
+    }
+    pc.bound("concat_grammar_max_tokens", serde_json::json!(cat_len));
+    pc.bound("concat_grammar_patterns", serde_json::json!(cats.len()));
+    let cases = cats.iter().map(|p| {
+        let mut pat = PatCfg::simple(p, Term::Lf);
+        pat.word = true;
+        Case { pat, lines: vec![] }
+    });
+    pc.run_enum("concat_grammar", cases, check);
     let corpus = corpus_patterns();
     pc.bound("repo_corpus_patterns", serde_json::json!(corpus.len()));
     let cases = corpus.iter().flat_map(|p| variants(p)).map(|pat| {
